@@ -105,12 +105,13 @@ CLAIMS = {
              "data/parity/matrix round trip and frame (other indices unchanged), contiguous data layout, order "
              "independence (any two programs commute), every program aligned to and a multiple of W and every read of R, "
              "all accesses inside the configured range, no program needs a 0->1 transition, num_rows fits the range and "
-             "is <= 8N, closed form of the row addresses; plus a decide-witness for the tail-read defect of the pinned "
+             "is <= 8N, closed form of the row addresses, every `as u32` cast and u32 address addition of flash.rs exact (range end < 2^32 "
+             "by type: u32_accesses_exact, u32_offsets_exact); plus a decide-witness for the tail-read defect of the pinned "
              "parity adapter (repaired in /repo). The three real adapters run on a simulated NorFlash device and are "
              "compared with the model on returned bytes and the complete access log (all 21 (W,R) pairs, lengths 1..64, "
              "all permutations of up to 4 (quick) / 5 (thorough) indices).",
-        note="Trusted: Lean kernel, the in-memory NorFlash device of the harness, NOR AND-programming. Addresses below "
-             "2^32 (the `as u32` casts are not modelled). Outside the property: FlashDataStorage::get panics for block "
+        note="Trusted: Lean kernel, the in-memory NorFlash device of the harness, NOR AND-programming. Addresses are "
+             "unbounded naturals in the model; the `as u32` casts are proved exact rather than modelled. Outside the property: FlashDataStorage::get panics for block "
              "lengths below W; indices at or above the capacity are the caller's contract.",
         design_ref="DESIGN.md section 6 (C16)"),
     "C07": dict(
